@@ -89,10 +89,19 @@ SPEC_M.append(("ledger.hsm2dongle", "HSM2Dongle", ["_send_pin", "unlock", "new_p
 ORACLE_FUNCS = {("comm.bitcoin", "encode_varint")}
 SPEC_M.append(("ledger.protocol", "HSM2ProtocolLedger", [
     "report_comm_issue", "_error", "ensure_connection", "_get_pubkey", "_reset_advance_blockchain"]))
+SPEC_M.append(("ledger.protocol", "HSM2ProtocolLedger", [
+    "_check_version", "_wait_and_reconnect", "_handle_bootloader", "initialize_device"]))
 # attributes of self that hold another translated object: (class, attribute) -> (module, class)
-ATTR_CLASS = {("HSM2ProtocolLedger", "hsm2dongle"): ("ledger.hsm2dongle", "HSM2Dongle")}
+ATTR_CLASS = {("HSM2ProtocolLedger", "hsm2dongle"): ("ledger.hsm2dongle", "HSM2Dongle"),
+              ("HSM2ProtocolLedger", "pin"): ("ledger.pin", "FileBasedPin")}
+# methods of objects whose class the code does not name but whose method name identifies it (pure code)
+METHOD_CLASS = {"supports": ("ledger.version", "HSM2FirmwareVersion")}
 # methods that are primitives of the device monad rather than translated
-PRIM_M = {("HSM2Dongle", "disconnect"): "m_disconnect", ("HSM2Dongle", "connect"): "m_connect"}
+PRIM_M = {("HSM2Dongle", "disconnect"): "m_disconnect", ("HSM2Dongle", "connect"): "m_connect",
+          ("FileBasedPin", "get_pin"): "m_pin_get_pin", ("FileBasedPin", "needs_change"): "m_pin_needs_change",
+          ("FileBasedPin", "get_new_pin"): "m_pin_get_new_pin", ("FileBasedPin", "start_change"): "m_pin_start_change",
+          ("FileBasedPin", "commit_change"): "m_pin_commit_change",
+          ("FileBasedPin", "abort_change"): "m_pin_abort_change"}
 # methods kept abstract (a parameter of type pm pv): the bring-up, which has its own model and theorems
 ABSTRACT_M = {("HSM2ProtocolLedger", "initialize_device"): "initialize_device_"}
 # attributes of self that live in the world
@@ -106,7 +115,7 @@ XCLS_ID = {"HSM2ProtocolError": 200, "HSM2ProtocolInterrupt": 201}
 XCLS = {"HSM2DongleError", "HSM2DongleTimeoutError", "HSM2DongleCommError", "HSM2DongleErrorResult",
         "HSM2DongleBaseError"}
 
-EXC = {"ValueError": "ValueError", "TypeError": "TypeError", "IndexError": "IndexError",
+EXC = {"Exception": "OtherExc", "ValueError": "ValueError", "TypeError": "TypeError", "IndexError": "IndexError",
        "OverflowError": "OverflowError", "KeyError": "KeyError", "NotImplementedError": "NotImplementedErr",
        "AttributeError": "AttributeError"}
 TYPES = {"dict": "TDict", "str": "TStr", "int": "TInt", "list": "TList", "bytes": "TBytes",
@@ -389,6 +398,11 @@ class FuncTr:
         if isinstance(st, ast.Expr):
             if self.is_log_call(st.value):
                 return self.stmts(rest, k, ret)
+            v_ = st.value
+            if isinstance(v_, ast.Call) and isinstance(v_.func, ast.Attribute) and isinstance(v_.func.value, ast.Name) \
+                    and v_.func.value.id == "time" and v_.func.attr == "sleep":
+                need(all(self.safe_arg(a) for a in v_.args), "time.sleep argument", st)
+                return self.stmts(rest, k, ret)          # waiting has no effect the model keeps
             if isinstance(st.value, ast.Constant):
                 return self.stmts(rest, k, ret)
             c_ = st.value
@@ -401,7 +415,15 @@ class FuncTr:
             if isinstance(st.value, ast.Call) and isinstance(st.value.func, ast.Name) \
                     and st.value.func.id in self.local_funcs and not st.value.args:
                 return self.stmts(self.local_funcs[st.value.func.id].body, "PStuck", ret)
-            # a call evaluated for its effect: here only calls that raise (e.g. self._error(...))
+            # a call evaluated for its effect
+            c2 = st.value
+            if isinstance(c2, ast.Call) and isinstance(c2.func, ast.Attribute) and isinstance(c2.func.value, ast.Name) \
+                    and c2.func.value.id == self.selfname and self.cls is not None:
+                meths = find_method(self.cls)
+                if c2.func.attr in meths and always_returns(meths[c2.func.attr][1].body) \
+                        and not contains(meths[c2.func.attr][1].body, (ast.Return,)):
+                    # a method that always raises (self._error(...)): nothing follows it
+                    return "pbind (%s) (fun _ => PStuck)" % self.expr(st.value)
             return "pbind (%s) (fun _ => %s)" % (self.expr(st.value), self.stmts(rest, k, ret))
         if isinstance(st, ast.If):
             # translate in execution order (the alias checks depend on it): test, branches, then the rest
@@ -472,7 +494,7 @@ class FuncTr:
         need(False, "assignment target", st)
 
     def try_(self, st, rest, k, ret):
-        need(not st.finalbody and not st.orelse and st.handlers, "try shape", st)
+        need((self.M or not st.finalbody) and not st.orelse and (st.handlers or st.finalbody), "try shape", st)
         kk = "@T%d@" % id(st)
         try:
             return self.try_inner(st, kk, ret).replace(kk, self.stmts(rest, k, ret))
@@ -482,6 +504,16 @@ class FuncTr:
     def try_m(self, st, kk, ret):
         """monadic backend: any mix of returning / falling-through bodies and handlers; results are tagged
         [VInt 2; value] = return from the function, [VInt 1; state] = fell through"""
+        if st.finalbody:
+            need(len(st.finalbody) == 1 and isinstance(st.finalbody[0], ast.Raise) and not st.orelse,
+                 "finally block that is not a single raise", st)
+            x = self.exc_of(st.finalbody[0])
+            need(x.startswith("@X"), "finally raises a built-in exception", st)
+            inner = ast.Try(body=st.body, handlers=st.handlers, orelse=[], finalbody=[])
+            ast.copy_location(inner, st)
+            body = self.try_m(inner, "POk VNone", lambda e: "pbind (%s) (fun _ => POk VNone)" % e) if st.handlers \
+                else self.stmts(st.body, "POk VNone", lambda e: "pbind (%s) (fun _ => POk VNone)" % e)
+            return "pfinally_raise (%s) %s" % (body, x[2:])
         def pats_of(h):
             catch_all, pats = False, []
             tys = [] if h.type is None else (h.type.elts if isinstance(h.type, ast.Tuple) else [h.type])
@@ -702,6 +734,9 @@ class FuncTr:
             return all(self.safe_arg(x) for x in a.args)
         if isinstance(a, ast.IfExp):
             return self.safe_arg(a.test) and self.safe_arg(a.body) and self.safe_arg(a.orelse)
+        if isinstance(a, ast.Call) and isinstance(a.func, ast.Attribute) and isinstance(a.func.value, ast.Name) \
+                and a.func.value.id == "Platform" and a.func.attr == "message":
+            return all(isinstance(x, ast.Constant) for x in a.args)     # assumed: the platform has been set
         if isinstance(a, ast.BinOp) and isinstance(a.op, ast.Add):
             return self.safe_arg(a.left) and self.safe_arg(a.right)
         if isinstance(a, ast.Subscript):
@@ -790,12 +825,36 @@ class FuncTr:
         return obj
 
     def name_chain_const(self, e):
-        """ClassName.MEMBER for a class of the module / imported from the repository"""
-        if isinstance(e, ast.Attribute) and isinstance(e.value, ast.Name) and e.value.id != self.selfname:
-            obj = getattr(self.m.mod, e.value.id, NOTCONST)
-            if isinstance(obj, type):
-                return getattr(obj, e.attr, NOTCONST)
-        return NOTCONST
+        """ClassName.A.B... for a class of the module / imported from the repository"""
+        names = []
+        cur = e
+        while isinstance(cur, ast.Attribute):
+            names.append(cur.attr)
+            cur = cur.value
+        if not (isinstance(cur, ast.Name) and cur.id != self.selfname and names):
+            return NOTCONST
+        obj = getattr(self.m.mod, cur.id, NOTCONST)
+        if not isinstance(obj, type):
+            return NOTCONST
+        for n in reversed(names):
+            obj = getattr(obj, n, NOTCONST)
+            if obj is NOTCONST or inspect.isfunction(obj) or inspect.ismethod(obj):
+                return NOTCONST
+        return obj
+
+    def instance_obj(self, obj):
+        """an instance of a class whose constructor the pure backend translates, held in a class attribute
+        (e.g. APP_VERSION = HSM2FirmwareVersion(5, 4, 1)): the object that constructor builds"""
+        if type(obj).__module__.split(".")[0] not in ("ledger", "comm", "admin", "sgx"):
+            return None
+        fields = list(vars(obj).items())
+        parts = []
+        for k_, v_ in reversed(fields):
+            c = const_val(v_)
+            if c is None:
+                return None
+            parts.append("(%s, %s)" % (coq_string(k_), c))
+        return "(VObj %s [%s])" % (coq_string(type(obj).__name__), "; ".join(parts))
 
     def enum_obj(self, m_):
         fields = [("value", m_.value)] + [(k_, v_) for k_, v_ in sorted(vars(m_).items()) if not k_.startswith("_")]
@@ -815,6 +874,11 @@ class FuncTr:
                 obj = self.name_chain_const(e)
                 if obj is not NOTCONST and isinstance(obj, enum.Enum) and not isinstance(obj.value, int):
                     return self.enum_obj(obj)
+            if obj is not NOTCONST and not isinstance(obj, (bool, int, str, bytes, type, enum.Enum)) and obj is not None \
+                    and not isinstance(obj, (dict, list, tuple, set)) and not callable(obj):
+                io = self.instance_obj(obj)
+                if io is not None:
+                    return io
             if obj is not NOTCONST:
                 if isinstance(obj, enum.Enum) and isinstance(obj.value, int):
                     return const_val(int(obj.value))
@@ -1255,6 +1319,12 @@ class FuncTr:
             if f.attr == "split" and len(e.args) == 1:
                 return self.binds([f.value, e.args[0]], lambda a: "py_split %s %s" % (a[0], a[1]))
             # method of another translated object whose class is known from a classmethod `cls`
+            if f.attr in METHOD_CLASS and not (isinstance(f.value, ast.Name) and f.value.id == self.selfname):
+                mod2, cname2 = METHOD_CLASS[f.attr]
+                cls2 = getattr(module(mod2).mod, cname2)
+                fn = self.G().method(cls2, f.attr)
+                args = self.resolve_callee_args(find_method(cls2)[f.attr][1], e, True)
+                return self.binds([f.value] + args, lambda a: self.L("%s %s" % (fn, " ".join(a))))
             if f.attr == "get" and len(e.args) == 1 and not e.keywords:
                 return self.binds([f.value, e.args[0]], lambda a: "py_dict_get %s %s" % (a[0], a[1]))
             # a method of an object the translation knows nothing about (certificate elements ...): an oracle
